@@ -650,9 +650,49 @@ mutual
     | _ => false
 end
 
+/-- typing of values (what `from_micheline_value` of the type produces): sets / maps hold pairwise different
+elements / keys in the order `sorted` leaves unchanged (`check_constraints`) -/
+def HasTy (c : Cfg) : Ty → Val → Prop
+  | .scalar _ .unit, v => v = .unit
+  | .scalar _ .bool, v => ∃ b, v = .bool b
+  | .scalar _ .nat, v => ∃ n : Int, v = .int n ∧ 0 ≤ n
+  | .scalar _ .int, v => ∃ n : Int, v = .int n
+  | .scalar _ .mutez, v => ∃ n : Int, v = .int n ∧ 0 ≤ n ∧ n < 9223372036854775808
+  | .scalar _ .timestamp, v => ∃ n : Int, v = .int n
+  | .scalar _ .string, v => ∃ s, v = .str s ∧ isAscii s = true
+  | .scalar _ .bytes, v => ∃ b, v = .bytes b
+  | .pair _ l r, v => ∃ x y, v = .pair x y ∧ HasTy c l x ∧ HasTy c r y
+  | .or _ l r, v => (∃ x, v = .left x ∧ HasTy c l x) ∨ (∃ y, v = .right y ∧ HasTy c r y)
+  | .option _ t, v => v = .none ∨ ∃ x, v = .some x ∧ HasTy c t x
+  | .list _ t, v => ∃ xs, v = .list xs ∧ ∀ x ∈ xs, HasTy c t x
+  | .set _ t, v => ∃ xs, v = .set xs ∧ (∀ x ∈ xs, HasTy c t x) ∧ xs.Pairwise (· ≠ ·) ∧ sortBy (ltV c t) xs = xs
+  | .map _ k t, v => ∃ kvs, v = .map kvs ∧ (∀ e ∈ kvs, HasTy c k e.1 ∧ HasTy c t e.2)
+      ∧ (kvs.map (·.1)).Pairwise (· ≠ ·) ∧ sortBy (fun a b => ltV c k a.1 b.1) kvs = kvs
+  | .bigMap _ k t, v => (∃ n, v = .bigMapId n) ∨ ∃ kvs, v = .bigMap kvs ∧ (∀ e ∈ kvs, HasTy c k e.1 ∧ HasTy c t e.2)
+      ∧ (kvs.map (·.1)).Pairwise (· ≠ ·) ∧ sortBy (fun a b => ltV c k a.1 b.1) kvs = kvs
+
 /-- the decidable guard of the round-trip theorem -/
 def PyInvertible (c : Cfg) (τ : Ty) : Prop := inv c false τ = true
 
 instance (c : Cfg) (τ : Ty) : Decidable (PyInvertible c τ) := by unfold PyInvertible; infer_instance
 
 end Spec.PyConv
+
+/-! ## `ContractData.decode` / `encode` (contract/data.py) as compositions -/
+namespace Impl.PyConv
+
+/-- the Micheline coding of typed values (`from_micheline_value` / `to_micheline_value(lazy_diff=None)`), a parameter:
+its own round trip is C11 -/
+structure Codec (M : Type) where
+  toMich : Ty → Val → M
+  ofMich : Ty → M → Except Err Val
+
+/-- `type(self.data).from_micheline_value(value).to_python_object(lazy_diff=None)` -/
+def decode {M : Type} (k : Codec M) (c : Cfg) (τ : Ty) (m : M) : Except Err PyObj :=
+  (k.ofMich τ m).bind (toPy c false τ)
+
+/-- `type(self.data).from_python_object(py_obj).to_micheline_value(mode, lazy_diff=None)` -/
+def encode {M : Type} (k : Codec M) (c : Cfg) (τ : Ty) (py : PyObj) : Except Err M :=
+  (ofPy c τ py).map (k.toMich τ)
+
+end Impl.PyConv
